@@ -268,8 +268,8 @@ def eval_case(c):
     elif model == "ExtendedEOF":
         m = S.ExtendedEOF(tau=1, embedding=2, **kw).fit(X, dim)
     elif model in ("EOFRotator", "HilbertEOFRotator"):
-        base = (S.EOF if model == "EOFRotator" else S.HilbertEOF)(n_modes=3, solver="full", use_coslat=c.get("coslat", False)).fit(X, dim)
-        m = getattr(S, model)(n_modes=2, power=c.get("power", 1)).fit(base)
+        base = (S.EOF if model == "EOFRotator" else S.HilbertEOF)(n_modes=5 if c.get("many_modes") else 3, solver="full", use_coslat=c.get("coslat", False)).fit(X, dim)
+        m = getattr(S, model)(n_modes=4 if c.get("many_modes") else 2, power=c.get("power", 1)).fit(base)
     elif model in ("CPCCA", "MCA", "ComplexMCA", "HilbertMCA"):
         ekw = dict(alpha=0.5) if model == "CPCCA" else {}
         m = getattr(C, model)(use_pca=c.get("use_pca", False), n_pca_modes=4, solver="full", **kw, **ekw).fit(X, Y, dim)
@@ -325,6 +325,15 @@ def eval_case(c):
             q("inverse_transform", lambda mm: mm.inverse_transform(m.scores()))
     if cross and model not in ("HilbertMCA",):
         q("predict", lambda mm: mm.predict(X))
+    if c.get("compute_rebuilt") and not msgs:
+        # computing a rebuilt (already computed) model is a no-op for its answers
+        before = (m2.components(), m2.scores())
+        m2.compute()
+        after = (m2.components(), m2.scores())
+        if not _close(before[0], after[0]) or not _close(before[1], after[1]):
+            msgs.append("compute() on the rebuilt model changed its components / scores")
+        if not _close(m.components(), after[0]):
+            msgs.append("components differ from the original after compute() on the rebuilt model")
     return (not msgs), "; ".join(msgs[:3])
 
 
@@ -346,6 +355,10 @@ def bounded_cases(tier, seed):
         cases.append(dict(model="EOF", structure="list11", attrs=0, codec=codec, placeholders=False, keep=True))
         for model in ("EOF", "EOFRotator", "MCA"):
             cases.append(dict(model=model, structure="da", attrs=1, codec=codec, coslat=True, placeholders=True, keep=True))
+    for codec in ("identity", "nc"):
+        for model, power in (("EOFRotator", 1), ("EOFRotator", 2), ("POP", 1), ("MCARotator", 1)):
+            cases.append(dict(model=model, structure="da", attrs=0, codec=codec, placeholders=False, power=power, many_modes=True, compute_rebuilt=True,
+                              after_compute=False, keep=codec == "identity"))
     for codec in ("identity", "nc", "json"):
         for st in ("multiindex-aux", "coord-attrs"):
             for model in ("EOF", "EOFRotator"):
